@@ -569,6 +569,8 @@ def run(chk):
                'different model, and in fresh processes under different PYTHONHASHSEEDs; written file bytes and '
                'hourly records must be identical', mismatches=bad)
     custom_vector_purity(chk, work)
+    import w1_util as W1
+    W1.boundary_family(chk, work)
     environment_purity(chk, work)
     circumstance_purity(chk, work)
     size_sequences(chk, work)
